@@ -227,6 +227,9 @@ pub enum WStep {
     Pending,
     Accept(usize),
     Zero,
+    /// the call is interrupted (ErrorKind::Interrupted) before anything was written; by the contract of
+    /// std::io::Write::write_all the writer tries again
+    Interrupt,
 }
 
 pub struct ScriptedWriter<'a> {
@@ -284,6 +287,9 @@ impl<'a> ScriptedWriter<'a> {
         self.step_idx += 1;
         if step == Some(WStep::Pending) {
             return Ok(None);
+        }
+        if step == Some(WStep::Interrupt) {
+            return Err(io::Error::from(io::ErrorKind::Interrupted));
         }
         if let Some((fp, kind)) = self.fault {
             if self.out.len() >= fp {
